@@ -320,31 +320,7 @@ func checkC16(c *km.Ctx) {
 	checkTotpGateAtomic(c, ls, "R-C16-3")
 
 	// ---------- R-C16-3
-	for _, hn := range []string{"(*RuntimeState).u2fSignResponse", "(*RuntimeState).webauthnAuthFinish"} {
-		fn := c.MustFunc("R-C16-3", "cmd/keymasterd", hn)
-		if fn == nil {
-			continue
-		}
-		cc := findChallengeConsume(c, fn)
-		if cc == nil {
-			r.Add("R-C16-3", km.FuncName(fn), "challenge lookup + consume", c.P.Pos(fn.Pos()), "lookup and delete of the challenge record, here or in a helper", "none found", false)
-			continue
-		}
-		held := ls.Held(cc.fn)
-		var lookup, del ssa.Instruction = cc.lookup, cc.del
-		one := held[lookup][stateMutex] && held[del][stateMutex]
-		for b := range blocksBetween(lookup.Block(), del.Block()) {
-			for _, in := range b.Instrs {
-				if h, ok := held[in]; ok && !h[stateMutex] {
-					if (b == lookup.Block() && !km.InstrDominates(lookup, in)) || (b == del.Block() && !km.InstrDominates(in, del)) {
-						continue
-					}
-					one = false
-				}
-			}
-		}
-		r.Add("R-C16-3", km.FuncName(fn), "challenge lookup + consume", posOf(c, lookup), "lookup and delete under one uninterrupted hold of the state mutex (a challenge presented twice at once is honoured at most once)", sprintf("%v", one), one)
-	}
+	checkChallengeAtomic(c, ls, "R-C16-3")
 
 	// ---------- R-C16-4
 	load, save := RS+"LoadUserProfile", RS+"SaveUserProfile"
@@ -557,4 +533,36 @@ func checkTotpGateAtomic(c *km.Ctx, ls *km.LockSets, rule string) {
 		}
 	}
 	c.R.Add(rule, km.FuncName(gate.fn), "TOTP gate: read-test-update is one critical section", posOf(c, lookup), "totpLocalTateLimitMutex held continuously from the lookup of the per-user record to the update of lastCheckTime", sprintf("%v", allHeld), allHeld)
+}
+
+// checkChallengeAtomic: lookup and delete of a pending hardware-token challenge are one critical section (shared by
+// C16 and C05: it is what makes a challenge single-use under concurrent presentation).
+func checkChallengeAtomic(c *km.Ctx, ls *km.LockSets, rule string) {
+	r := c.R
+	for _, hn := range []string{"(*RuntimeState).u2fSignResponse", "(*RuntimeState).webauthnAuthFinish"} {
+		fn := c.MustFunc(rule, "cmd/keymasterd", hn)
+		if fn == nil {
+			continue
+		}
+		cc := findChallengeConsume(c, fn)
+		if cc == nil {
+			r.Add(rule, km.FuncName(fn), "challenge lookup + consume", c.P.Pos(fn.Pos()), "lookup and delete of the challenge record, here or in a helper", "none found", false)
+			continue
+		}
+		held := ls.Held(cc.fn)
+		var lookup, del ssa.Instruction = cc.lookup, cc.del
+		one := held[lookup][stateMutex] && held[del][stateMutex]
+		for b := range blocksBetween(lookup.Block(), del.Block()) {
+			for _, in := range b.Instrs {
+				if h, ok := held[in]; ok && !h[stateMutex] {
+					if (b == lookup.Block() && !km.InstrDominates(lookup, in)) || (b == del.Block() && !km.InstrDominates(in, del)) {
+						continue
+					}
+					one = false
+				}
+			}
+		}
+		r.Add(rule, km.FuncName(fn), "challenge lookup + consume", posOf(c, lookup), "lookup and delete under one uninterrupted hold of the state mutex (a challenge presented twice at once is honoured at most once)", sprintf("%v", one), one)
+	}
+
 }
